@@ -212,6 +212,7 @@ def run(rep, tier):
         axis(rep, prog, "C08.axis")
         c14.aliasing(rep, prog, "C08.aliasing")
         c14.guards(rep, prog, "C08.split-guards")
+        c14.offsets(rep, prog, "C08.split-offsets")
         n = c03.arith(rep, prog, "C08.arith", only=lambda f: f.file == "src/threading.rs")
         rep.floor("C08.arith", "arithmetic asserts in threading.rs", n, 8)
         index_rules.unwraps(rep, prog, "C08.unwrap", only=lambda f: f.file == "src/threading.rs", floor=6)
